@@ -681,7 +681,7 @@ package tree
 //@   ensures no_worse_than_any_child [C08]: allstr(k, present(s.childs.c, k) ==> result <= branchBest(s.childs.c[k]))
 //@   ensures no_worse_than_the_own_values [C08]: result <= callres(GetHighestPrecedenceValue, 0) && callarg(GetHighestPrecedenceValue, 0, 0) == s.leafVariants
 //@   ensures attained [C08]: result == 2147483647 || result == callres(GetHighestPrecedenceValue, 0) || exstr(k, present(s.childs.c, k) && result == branchBest(s.childs.c[k]))
-//@   loop 0 invariant $map == callres(GetAll) && callarg(GetAll, 0, 0) == s.childs
+//@   loop 0 invariant all_children_are_searched [C08]: allstr(k, present($map, k) == present(s.childs.c, k) && (present(s.childs.c, k) ==> $map[k] == s.childs.c[k]))
 //@   loop 0 invariant allstr(k, $visited[k] ==> present($map, k) && result <= branchBest($map[k]))
 //@   loop 0 invariant result == 2147483647 || exstr(k, $visited[k] && result == branchBest($map[k]))
 
